@@ -9,7 +9,7 @@ separately: a change to one copy must be caught in that copy.
 import os
 import subprocess
 
-from vp.extract import Fn
+from vp.extract import Fn, REPO
 from vp.driver import Unit, Run, VERIF, sh
 
 LEVEL = "proof"
@@ -272,8 +272,8 @@ def replay_bin():
     if REPLAY_BIN not in _built:
         _built.add(REPLAY_BIN)
         os.makedirs(os.path.dirname(REPLAY_BIN), exist_ok=True)
-        inc = ["-I/repo/src/Persistence_matrix/include", "-I/repo/src/Persistent_cohomology/include",
-               "-I/repo/src/common/include"]
+        inc = ["-I" + REPO + "/src/Persistence_matrix/include", "-I" + REPO + "/src/Persistent_cohomology/include",
+               "-I" + REPO + "/src/common/include"]
         rc, o, e, s = sh(["g++", "-std=c++17", "-O1", "-w"] + inc + [REPLAY_SRC, "-o", REPLAY_BIN], 300)
         if rc != 0:
             raise RuntimeError("replay build failed: " + (o + e)[-1500:])
@@ -333,7 +333,7 @@ def native(tier, seed, bdir, only=None):
         return out_pr
     os.makedirs(bdir, exist_ok=True)
     exe = os.path.join(bdir, "multifield_sweep")
-    inc = ["-I/repo/src/Persistence_matrix/include", "-I/repo/src/Persistent_cohomology/include", "-I/repo/src/common/include"]
+    inc = ["-I" + REPO + "/src/Persistence_matrix/include", "-I" + REPO + "/src/Persistent_cohomology/include", "-I" + REPO + "/src/common/include"]
     rc, o, e, s = sh(["g++", "-std=c++17", "-O1", "-w"] + inc + [os.path.join(VERIF, "native", "multifield_sweep.cpp"), "-o", exe, "-lgmpxx", "-lgmp"], 600)
     if rc != 0:
         return [{"unit": "native.build", "status": "error", "notes": (o + e)[-1500:], "cases": 0, "failures": []}]
@@ -369,7 +369,7 @@ def primes_native(bdir, unit="native.is_prime"):
     import json
     os.makedirs(bdir, exist_ok=True)
     exe = os.path.join(bdir, "primes_sweep")
-    inc = ["-I/repo/src/Persistence_matrix/include", "-I/repo/src/Ripser/include", "-I/repo/src/common/include"]
+    inc = ["-I" + REPO + "/src/Persistence_matrix/include", "-I" + REPO + "/src/Ripser/include", "-I" + REPO + "/src/common/include"]
     rc, o, e, s = sh(["g++", "-std=c++17", "-O1", "-w"] + inc + [os.path.join(VERIF, "native", "primes_sweep.cpp"), "-o", exe, "-lgmpxx", "-lgmp"], 600)
     if rc != 0:
         return [{"unit": unit, "status": "error", "notes": (o + e)[-1500:], "cases": 0, "failures": []}]
